@@ -7,8 +7,11 @@ pub mod c04;
 pub mod c05;
 pub mod c11;
 pub mod c12;
+pub mod c13;
+pub mod c14;
 pub mod c17;
 pub mod c18;
+pub mod c21;
 pub mod c24;
 
 pub fn all() -> Vec<PropDef> {
@@ -18,8 +21,11 @@ pub fn all() -> Vec<PropDef> {
         c05::def(),
         c11::def(),
         c12::def(),
+        c13::def(),
+        c14::def(),
         c17::def(),
         c18::def(),
+        c21::def(),
         c24::def(),
     ]
 }
